@@ -13,6 +13,7 @@ open QV
 def decQubit : Sexp → Option Qubit
   | .atom a => a.toNat?.map .fixed
   | .list [.atom "v", .str s] => some (.var s)
+  | .list [.atom "p", .atom k] => k.toNat?.map .ph
   | _ => none
 
 def decFrame : Sexp → Option Frame
@@ -51,7 +52,15 @@ partial def decInstr : Sexp → Option (Instr × String)
   | .list [.atom "defcalm", q, .list body] => do
       some (.defcalMeasure (← decQubit q) ((← body.mapM decInstr).map (·.1)), "MeasureCalibrationDefinition")
   | .list [.atom "other", .atom k] => some (.other, k)
+  | .list [.atom "defframe", _] => some (.other, "FrameDefinition")
   | _ => none
+
+/-- the frame identifiers DEFINED by the content (DEFFRAME instructions / `FrameSet::insert` calls), computed
+from the AST independently of the implementation's key set -/
+def definedFrames (added : List Sexp) : List Frame :=
+  dedup (added.filterMap fun
+    | .list [.atom "defframe", f] => decFrame f
+    | _ => none)
 
 def decMatched : Sexp → Option (Option Matched)
   | .atom "none" => some none
@@ -75,22 +84,49 @@ def handle (inp out : Sexp) : CaseResult :=
   | .list [.atom "mf", .list fs, .list added, i] =>
     match fs.mapM decFrame, added.mapM decInstr, decInstr i, decMatched out with
     | some frames, some addedI, some (instr, kind), some o =>
-      let p : Prog := { frames := frames, added := addedI.map (·.1) }
+      -- the program's frames are the identifiers its CONTENT defines (computed from the AST with the model's
+      -- own equality); the implementation's key set must be exactly that
+      let keysOk := sameFrames frames (definedFrames added)
+      let p : Prog := { frames := definedFrames added, added := addedI.map (·.1) }
       let m := matchingFrames p instr
       let nUsed := match o with | some x => x.used.length | none => 0
       let nBlocked := match o with | some x => x.blocked.length | none => 0
       let varq := frames.any (fun f => f.qubits.any (fun q => match q with | .var _ => true | _ => false))
-      { agree := agreeOut m o
+      { agree := agreeOut m o && keysOk
         specOk := checkB p instr o
         nontrivial := o.isSome && !frames.isEmpty
         tags := [s!"i-{kind}", s!"frames{bucket frames.length}", s!"used{bucket nUsed}",
                  s!"blocked{bucket nBlocked}", s!"usedq{bucket (dedup (usedQubits p)).length}"] ++
                 (if o.isNone then ["none"] else []) ++
                 (if varq then ["var-qubit"] else []) ++
+                (if frames.any (fun f => f.qubits.any (fun q => q matches .ph _)) then ["placeholder-qubit"] else []) ++
+                (if keysOk then [] else ["KEYS-DIFFER"]) ++
                 (if kind == "Reset" && instr matches .reset none then ["reset-all"] else []) ++
                 (addedI.map (fun x => s!"added-{x.2}")).eraseDups
-        detail := s!"model={repr m} impl={out}" }
+        detail := s!"model={repr m} impl={out} keysOk={keysOk}" }
     | _, _, _, _ => .bad s!"undecodable case {inp} {out}"
+  -- `Program::simplify` without calibrations: the frames kept are exactly those some body instruction uses
+  | .list [.atom "simp", .list fs, .list added] =>
+    match fs.mapM decFrame, added.mapM decInstr, out with
+    | some frames, some addedI, .list (.atom "frames" :: kept) =>
+      match kept.mapM decFrame with
+      | some keptF =>
+        let p : Prog := { frames := definedFrames added, added := addedI.map (·.1) }
+        let usedOf (i : Instr) : List Frame := match matchingFrames p i with
+          | some m => m.used
+          | none => []
+        let want := dedup ((addedI.map (·.1)).flatMap usedOf)
+        let keysOk := sameFrames frames (definedFrames added)
+        { agree := sameFrames want keptF && keysOk
+          -- spec: kept ⊆ defined, and a defined frame is kept iff some instruction uses it (proved checker per instruction)
+          specOk := keptF.all (fun f => frames.contains f) &&
+            frames.all (fun f => keptF.contains f ==
+              (addedI.map (·.1)).any (fun i => isFrameInstrB i && usedByB (usedQubits p) i f))
+          nontrivial := !frames.isEmpty
+          tags := ["simplify", s!"frames{bucket frames.length}", s!"kept{bucket keptF.length}"]
+          detail := s!"model={repr want} impl={out}" }
+      | none => .bad s!"undecodable output {out}"
+    | _, _, _ => .bad s!"undecodable case {inp} {out}"
   | _ => .bad s!"undecodable input {inp}"
 
 end QV.C26
